@@ -77,15 +77,35 @@ Walk(beh, chain, i) ==
                                      \cup (IF Undetectable(ep, b) THEN {stop("any")} ELSE {})
 
 \* ---- the cache as the statement sees it -----------------------------------
-\* one entry per path: the answer, its time-to-live state, and which client object stored it
-\*   "none"  nothing cached            "live"  within its TTL for the whole run (TTL = 1 h)
-\*   "maybe" short TTL, may or may not have run out (DESIGN 3.2)   "stale" the TTL has certainly run out
-Entry(doc, st, gen) == [doc |-> doc, st |-> st, gen |-> gen]
-NoEntry == Entry("", "none", 0)
-FreshSt(cfg) == IF cfg.ttl = "long" THEN "live" ELSE "maybe"
+\* Time is in milliseconds since the start of the run.  A query occupies an interval [t0, t1] (the monitor takes
+\* it from the driver's monotonic clock, the model checker from its nominal clock); the store of a fetched answer
+\* happens somewhere inside the interval of the query that fetched it.  One entry per path: the answer, the
+\* interval [lo, hi] in which it was stored, which client object stored it, and
+\*   st = "none" nothing cached, "have" cached, "dead" cached but known to have run out (a later query went to
+\*   the network although it could have been served: time is monotonic).
+\* Relative to a query [t0, t1] an entry is
+\*   "live"  the whole query lies before the earliest possible expiry      (hit required)
+\*   "stale" the whole query lies after the latest possible expiry         (traffic required)
+\*   "maybe" otherwise (DESIGN 3.2): both conform
+\* with a slack for clock granularity and the different clocks the caches use (Instant, SystemTime, file mtime).
+\* A hit never changes the entry: an answer lives for one TTL from the moment it was fetched.
+Slack == 120
+TtlMs(cfg) == CASE cfg.ttl = "long" -> 3600000 [] cfg.ttl = "mid" -> 600 [] OTHER -> 150
+TickMs == 650          \* `tick`: sleep clearly beyond the short TTL
+Entry(doc, st, gen, lo, hi) == [doc |-> doc, st |-> st, gen |-> gen, lo |-> lo, hi |-> hi]
+NoEntry == Entry("", "none", 0, 0, 0)
+Class(cfg, e, t0, t1) ==
+  CASE e.st = "none" -> "none"
+    [] e.st = "dead" -> "stale"
+    [] t1 + Slack < e.lo + TtlMs(cfg) -> "live"
+    [] t0 > e.hi + TtlMs(cfg) + Slack -> "stale"
+    [] OTHER -> "maybe"
 
-\* abstract state of a run: cache (sequence over paths), client generation, current behaviours
-St0(cfg) == [cache |-> <<NoEntry, NoEntry>>, gen |-> 0, beh |-> cfg.beh]
+\* abstract state of a run: cache (sequence over paths), client generation, current behaviours, interval of the
+\* query being judged
+St0(cfg) == [cache |-> <<NoEntry, NoEntry>>, gen |-> 0, beh |-> cfg.beh, t0 |-> 0, t1 |-> 0]
+At(st, t0, t1) == [st EXCEPT !.t0 = t0, !.t1 = t1]
+EClass(cfg, st, p) == Class(cfg, st.cache[p], st.t0, st.t1)
 
 \* ---- TCPREAD operators used by the query part (defined in part 2) ----------
 NN(r, p)      == p >= 2 /\ p \in r.nl /\ (p - 1) \in r.nl      \* the first p bytes end with "\n\n"
@@ -123,27 +143,28 @@ NetOutcomes(cfg, st, p, any) ==
 
 Outcomes(cfg, st, p, any) ==
   LET e == st.cache[p]
+      c == EClass(cfg, st, p)
       hit(dev) == {Out("ok", e.doc, <<>>, TRUE, dev)}
-  IN  (IF e.st \in {"live", "maybe"} THEN hit("") ELSE {})
+  IN  (IF c \in {"live", "maybe"} THEN hit("") ELSE {})
       \* F13a: on a cache directory the index lookup never matches (key equality includes a lazily filled
       \* field), the file is found again without its expiry: the same client serves it for ever
-      \cup (IF Dev("F13a") /\ e.st = "stale" /\ cfg.cache = "disk" /\ e.gen = st.gen THEN hit("F13a") ELSE {})
+      \cup (IF Dev("F13a") /\ c = "stale" /\ cfg.cache = "disk" /\ e.gen = st.gen THEN hit("F13a") ELSE {})
       \* F13b (= F10b seen through the client): a new client object finds the file of an earlier one and
       \* cannot know its expiry
-      \cup (IF Dev("F13b") /\ e.st = "stale" /\ cfg.cache = "disk" /\ e.gen < st.gen THEN hit("F13b") ELSE {})
-      \cup (IF e.st # "live" THEN NetOutcomes(cfg, st, p, any) ELSE {})
+      \cup (IF Dev("F13b") /\ c = "stale" /\ cfg.cache = "disk" /\ e.gen < st.gen THEN hit("F13b") ELSE {})
+      \cup (IF c # "live" THEN NetOutcomes(cfg, st, p, any) ELSE {})
 
 \* state after an outcome
 After(cfg, st, p, o) ==
   LET e == st.cache[p] IN
   IF o.hit THEN st
-  ELSE IF o.res = "ok" THEN [st EXCEPT !.cache[p] = Entry(o.doc, FreshSt(cfg), st.gen)]
-  ELSE IF e.st = "maybe" THEN [st EXCEPT !.cache[p].st = "stale"]   \* it went to the network: the TTL had run out
+  ELSE IF o.res = "ok" THEN [st EXCEPT !.cache[p] = Entry(o.doc, "have", st.gen, st.t0, st.t1)]
+  ELSE IF e.st = "have" THEN [st EXCEPT !.cache[p].st = "dead"]   \* it went to the network: the TTL had run out
   ELSE st
 
 \* the other operations of a run
-TickSt(st)         == [st EXCEPT !.cache = [i \in 1..Len(st.cache) |->
-                          IF st.cache[i].st = "maybe" THEN [st.cache[i] EXCEPT !.st = "stale"] ELSE st.cache[i]]]
+WaitSt(st, ms)     == [st EXCEPT !.t0 = st.t1 + ms, !.t1 = st.t1 + ms]     \* model checker only: the nominal clock
+TickSt(st)         == WaitSt(st, TickMs)
 ReopenSt(cfg, st)  == IF cfg.cache = "disk" THEN [st EXCEPT !.gen = st.gen + 1]
                       ELSE [st EXCEPT !.gen = st.gen + 1, !.cache = [i \in 1..Len(st.cache) |-> NoEntry]]
 FlipSt(cfg, st)    == [st EXCEPT !.beh = cfg.beh2]
@@ -174,9 +195,9 @@ ClauseErr(cfg, st, p, any) ==              \* fails only if every permitted prot
       /\ \/ Len(o.contacted) = Len(Chain(cfg.cls))
          \/ st.beh[o.contacted[Len(o.contacted)]] \in Definitive \cup Ambiguous
 ClauseWithinTtl(cfg, st, p, any) ==        \* within the TTL: the cached answer, no traffic
-  st.cache[p].st = "live" => \A o \in Outcomes(cfg, st, p, any) : o.hit /\ o.contacted = <<>> /\ o.doc = st.cache[p].doc
+  EClass(cfg, st, p) = "live" => \A o \in Outcomes(cfg, st, p, any) : o.hit /\ o.contacted = <<>> /\ o.doc = st.cache[p].doc
 ClauseAfterTtl(cfg, st, p, any) ==         \* after the TTL (or with nothing cached): traffic
-  st.cache[p].st \in {"stale", "none"} => \A o \in Outcomes(cfg, st, p, any) : ~o.hit /\ o.contacted # <<>>
+  EClass(cfg, st, p) \in {"stale", "none"} => \A o \in Outcomes(cfg, st, p, any) : ~o.hit /\ o.contacted # <<>>
 ClauseNoPanic(cfg, st, p, any) ==
   \A o \in Outcomes(cfg, st, p, any) : o.res # "panic"
 \* Store only after Ok / failed answers never cached: every cached document was some endpoint's
